@@ -3523,6 +3523,148 @@ pub proof fn theorem_c09_typed(t0: PackageType, p0: PurlParts, t1: PackageType, 
     lemma_rebuild::<PackageType>(u1, q1, fr2, r2);
 }
 
+// ---- unit theory.c08  <= (contracts):0 ----
+// ---- C08 as theorems relating the typed and the type-agnostic parser on the SAME string ----
+pub proof fn lemma_nonempty_part_congr(a: Seq<(QualifierKey, SmallString)>, b: Seq<(QualifierKey, SmallString)>)
+    requires kvs(a) == kvs(b)
+    ensures kvs(nonempty_part(a)) == kvs(nonempty_part(b))
+    decreases a.len()
+{
+    assert(kvs(a).len() == a.len() && kvs(b).len() == b.len());
+    if a.len() > 0 {
+        assert(kvs(a.drop_last()) =~= kvs(a).drop_last());
+        assert(kvs(b.drop_last()) =~= kvs(b).drop_last());
+        lemma_nonempty_part_congr(a.drop_last(), b.drop_last());
+        assert(kvs(a).last() == (a.last().0.0@, a.last().1@));
+        assert(kvs(b).last() == (b.last().0.0@, b.last().1@));
+        let na = nonempty_part(a.drop_last());
+        let nb = nonempty_part(b.drop_last());
+        if a.last().1@.len() > 0 {
+            assert(kvs(na.push(a.last())) =~= kvs(na).push((a.last().0.0@, a.last().1@)));
+            assert(kvs(nb.push(b.last())) =~= kvs(nb).push((b.last().0.0@, b.last().1@)));
+        }
+    } else {
+        assert(kvs(nonempty_part(a)) =~= kvs(nonempty_part(b)));
+    }
+}
+
+/// two builds of parts with the same name text and the same qualifier texts (whatever the type parameters): if the first is
+/// accepted so is the second, and the qualifier texts of the results agree
+pub proof fn lemma_build_agree<T1: PurlShape, T2: PurlShape>(t1: T1, p1: PurlParts, f1: Result<(), T1::Error>, g1: GenericPurl<T1>,
+                                                              t2: T2, p2: PurlParts, f2: Result<(), T2::Error>, r2: Result<GenericPurl<T2>, T2::Error>)
+    requires
+        f1 is Ok, f2 is Ok, wf_seq(p1.qualifiers.qualifiers@), wf_seq(p2.qualifiers.qualifiers@),
+        kvs(p1.qualifiers.qualifiers@) == kvs(p2.qualifiers.qualifiers@), p2.name@.len() > 0,
+        build_post::<T1>(t1, p1, f1, Ok::<GenericPurl<T1>, T1::Error>(g1)), build_post::<T2>(t2, p2, f2, r2),
+    ensures
+        r2 is Ok, kvs(r2->Ok_0.parts.qualifiers.qualifiers@) == kvs(g1.parts.qualifiers.qualifiers@),
+        r2->Ok_0.package_type == t2, r2->Ok_0.parts.namespace == p2.namespace, r2->Ok_0.parts.name == p2.name,
+        r2->Ok_0.parts.version == p2.version, r2->Ok_0.parts.subpath == p2.subpath,
+{
+    let a = nonempty_part(p1.qualifiers.qualifiers@);
+    let b = nonempty_part(p2.qualifiers.qualifiers@);
+    lemma_nonempty_part_congr(p1.qualifiers.qualifiers@, p2.qualifiers.qualifiers@);
+    lemma_nonempty_wf(p1.qualifiers.qualifiers@);
+    lemma_nonempty_wf(p2.qualifiers.qualifiers@);
+    lemma_checksum_key();
+    lemma_kvs_pos_of(a, checksum_key());
+    lemma_kvs_pos_of(b, checksum_key());
+    assert(has_key(a, checksum_key()) == has_key(b, checksum_key()));
+    assert(kvs(a).len() == a.len() && kvs(b).len() == b.len());
+    let g1q = g1.parts.qualifiers.qualifiers@;
+    if has_key(a, checksum_key()) {
+        let p = pos_of(a, checksum_key());
+        lemma_has_pair_pos_key(a, checksum_key());
+        lemma_has_pair_pos_key(b, checksum_key());
+        assert(pos_of(b, checksum_key()) == p);
+        assert(kvs(a)[p] == (a[p].0.0@, a[p].1@));
+        assert(kvs(b)[p] == (b[p].0.0@, b[p].1@));
+        assert(a[p].1@ == b[p].1@);
+        assert(r2 is Ok);
+        let r2q = r2->Ok_0.parts.qualifiers.qualifiers@;
+        assert(kvs(r2q) =~= kvs(g1q)) by {
+            assert(kvs(r2q).len() == r2q.len() && kvs(g1q).len() == g1q.len());
+            assert forall|i: int| 0 <= i < g1q.len() implies kvs(r2q)[i] == kvs(g1q)[i] by {
+                assert(kvs(a)[i] == (a[i].0.0@, a[i].1@));
+                assert(kvs(b)[i] == (b[i].0.0@, b[i].1@));
+                if i != p { assert(g1q[i] == a[i]); assert(r2q[i] == b[i]); }
+            }
+        }
+    } else {
+        assert(r2 is Ok);
+    }
+}
+
+/// C08: on the same string the typed PURL and a type-agnostic PURL agree on namespace, version, qualifiers and subpath; the
+/// typed name is the type's rule applied to the type-agnostic name; whenever the typed PURL accepts, so does the type-agnostic one
+pub proof fn theorem_c08_agree<T: FromStr + PurlShape>(s: Seq<char>, gt: GenericPurl<PackageType>, r: Result<GenericPurl<T>, <T as PurlShape>::Error>)
+    where <T as PurlShape>::Error: From<<T as FromStr>::Err>
+    requires plain_shape::<T>(), parse_post::<PackageType>(s, Ok::<GenericPurl<PackageType>, PackageError>(gt)), parse_post::<T>(s, r),
+    ensures
+        r is Ok,
+        r->Ok_0.package_type.type_text() == type_name(gt.package_type),
+        gt.parts.namespace@ == r->Ok_0.parts.namespace@, gt.parts.version@ == r->Ok_0.parts.version@, gt.parts.subpath@ == r->Ok_0.parts.subpath@,
+        kvs(gt.parts.qualifiers.qualifiers@) == kvs(r->Ok_0.parts.qualifiers.qualifiers@),
+        match gt.package_type {
+            PackageType::NuGet => gt.parts.name@ == lower_seq(r->Ok_0.parts.name@),
+            PackageType::PyPI => gt.parts.name@ == pypi_norm(r->Ok_0.parts.name@),
+            _ => gt.parts.name@ == r->Ok_0.parts.name@,
+        },
+        gt.package_type == PackageType::Maven ==> !all_char(gt.parts.namespace@, '/'),
+{
+    let rt = Ok::<GenericPurl<PackageType>, PackageError>(gt);
+    let a = phase_a(s)->Ok_0;
+    // ---- the typed parse ----
+    let crt = choose|cr: Result<PackageType, UnsupportedPackageType>| #[trigger] PackageType::from_str_rel(a.ty, cr) && match cr {
+        Err(ce) => rt is Err,
+        Ok(t0) => match phase_b(a.rest) {
+            Err(e) => rt is Err,
+            Ok(b) => exists|p0: PurlParts, t1: PackageType, p1: PurlParts, fr: Result<(), PackageError>|
+                parts_are(p0, a, b) && #[trigger] PackageType::finish_rel(t0, p0, t1, p1, fr) && build_post::<PackageType>(t1, p1, fr, rt),
+        },
+    };
+    let t0 = crt->Ok_0;
+    let b = phase_b(a.rest)->Ok_0;
+    let (p0, t1, p1, fr) = choose|p0: PurlParts, t1: PackageType, p1: PurlParts, fr: Result<(), PackageError>|
+        parts_are(p0, a, b) && #[trigger] PackageType::finish_rel(t0, p0, t1, p1, fr) && build_post::<PackageType>(t1, p1, fr, rt);
+    assert(pkg_finish_rel(t0, p0, t1, p1, fr));
+    assert(fr is Ok && p1.qualifiers == p0.qualifiers);
+    lemma_first_build::<PackageType>(t1, p1, fr, gt);
+    // the name was non-empty before the rule (the rule maps the empty name to the empty name)
+    assert(p0.name@.len() > 0) by {
+        if p0.name@.len() == 0 { assert(pypi_norm(p0.name@) =~= Seq::<char>::empty()); assert(lower_seq(p0.name@) =~= Seq::<char>::empty()); }
+    }
+    // ---- the type-agnostic parse of the same string ----
+    let cr = choose|cr: Result<T, <T as FromStr>::Err>| #[trigger] T::from_str_rel(a.ty, cr) && match cr {
+        Err(ce) => r is Err,
+        Ok(t0) => match phase_b(a.rest) {
+            Err(e) => r is Err,
+            Ok(b) => exists|p0: PurlParts, t1: T, p1: PurlParts, fr: Result<(), <T as PurlShape>::Error>|
+                parts_are(p0, a, b) && #[trigger] T::finish_rel(t0, p0, t1, p1, fr) && build_post::<T>(t1, p1, fr, r),
+        },
+    };
+    let u0 = cr->Ok_0;
+    let (q0, u1, q1, fr2) = choose|q0: PurlParts, u1: T, q1: PurlParts, fr2: Result<(), <T as PurlShape>::Error>|
+        parts_are(q0, a, b) && #[trigger] T::finish_rel(u0, q0, u1, q1, fr2) && build_post::<T>(u1, q1, fr2, r);
+    assert(q1 == q0 && fr2 is Ok && u1.type_text() == lower_ascii_seq(a.ty));
+    lemma_build_agree::<PackageType, T>(t1, p1, fr, gt, u1, q1, fr2, r);
+    assert(lower_ascii_seq(a.ty) == type_name(t0));
+}
+
+/// C08: a well-formed type other than the seven known ones is refused by the typed PURL with UnsupportedType
+pub proof fn theorem_c08_unknown(s: Seq<char>, rt: Result<GenericPurl<PackageType>, PackageError>)
+    requires phase_a(s) is Ok, forall|t: PackageType| lower_ascii_seq(phase_a(s)->Ok_0.ty) != #[trigger] type_name(t),
+        parse_post::<PackageType>(s, rt),
+    ensures rt == Err::<GenericPurl<PackageType>, PackageError>(PackageError::UnsupportedType)
+{
+    let a = phase_a(s)->Ok_0;
+    let cr = choose|cr: Result<PackageType, UnsupportedPackageType>| #[trigger] PackageType::from_str_rel(a.ty, cr) && match cr {
+        Err(ce) => rt is Err && rt->Err_0 == <PackageError as vstd::std_specs::convert::FromSpec<UnsupportedPackageType>>::from_spec(ce),
+        Ok(t0) => true,
+    };
+    if cr is Ok { assert(lower_ascii_seq(a.ty) == type_name(cr->Ok_0)); }
+}
+
 
 // ---- consistency canary: must be REJECTED; if it verifies the assumptions are contradictory ----
 pub proof fn verif_canary_must_fail()
@@ -3549,6 +3691,16 @@ pub proof fn verif_vacuity_c10_typed_must_fail(g: GenericPurl<PackageType>, t1: 
     requires
         handed_out_typed(g),
         PackageType::finish_rel(g.package_type, g.parts, t1, p1, fr), build_post::<PackageType>(t1, p1, fr, r),
+    ensures false
+{ }
+pub proof fn verif_vacuity_c08_agree_must_fail<T: FromStr + PurlShape>(s: Seq<char>, gt: GenericPurl<PackageType>, r: Result<GenericPurl<T>, <T as PurlShape>::Error>)
+    where <T as PurlShape>::Error: From<<T as FromStr>::Err>
+    requires plain_shape::<T>(), parse_post::<PackageType>(s, Ok::<GenericPurl<PackageType>, PackageError>(gt)), parse_post::<T>(s, r),
+    ensures false
+{ }
+pub proof fn verif_vacuity_c08_unknown_must_fail(s: Seq<char>, rt: Result<GenericPurl<PackageType>, PackageError>)
+    requires phase_a(s) is Ok, forall|t: PackageType| lower_ascii_seq(phase_a(s)->Ok_0.ty) != #[trigger] type_name(t),
+        parse_post::<PackageType>(s, rt),
     ensures false
 { }
 pub proof fn verif_vacuity_c09_typed_must_fail(t0: PackageType, p0: PurlParts, t1: PackageType, p1: PurlParts, fr: Result<(), PackageError>,
